@@ -4,6 +4,7 @@ import (
 	"bytes"
 	"fmt"
 	"math/rand"
+	"reflect"
 	"strings"
 	"unicode/utf8"
 
@@ -98,7 +99,7 @@ func randomText(r *rand.Rand) string {
 
 // buildTextValue builds an object/actor holding text s in the given property and form.
 // It returns the value, a getter for the text after decoding, and the tag expected (if any).
-func buildTextValue(prop, form, s string, r *rand.Rand) (vocab.Item, func(any) (vocab.NaturalLanguageValues, bool), vocab.NaturalLanguageValues) {
+func buildTextValue(prop, form, s string, r *rand.Rand) (vocab.Item, func(any) (vocab.NaturalLanguageValues, bool), vocab.NaturalLanguageValues, string) {
 	var nlv vocab.NaturalLanguageValues
 	switch form {
 	case "single-untagged":
@@ -118,50 +119,59 @@ func buildTextValue(prop, form, s string, r *rand.Rand) (vocab.Item, func(any) (
 			nlv = append(nlv, vocab.LangRefValue{Ref: tags[i], Value: vocab.Content(t)})
 		}
 	}
-	id := vocab.IRI("https://example.com/text/1")
-	if prop == "preferredUsername" {
-		a := &vocab.Actor{ID: id, Type: vocab.PersonType, PreferredUsername: nlv}
-		return a, func(x any) (vocab.NaturalLanguageValues, bool) {
-			if p, ok := x.(*vocab.Actor); ok && p != nil {
-				return p.PreferredUsername, true
-			}
-			return nil, false
-		}, nlv
+	// the carrier: any struct kind that declares the property, typed with any vocabulary name of that kind, in pointer form,
+	// at top level or (every third case) as the object of an activity, which routes it through the generic item path
+	fieldName := map[string]string{"name": "Name", "summary": "Summary", "content": "Content", "preferredUsername": "PreferredUsername", "source.content": "Source", "source.content-only": "Source"}[prop]
+	var ks []vmodel.StructKind
+	for _, k := range vmodel.Kinds {
+		if _, ok := reflect.TypeOf(k.New()).Elem().FieldByName(fieldName); ok {
+			ks = append(ks, k)
+		}
 	}
-	o := &vocab.Object{ID: id, Type: vocab.NoteType}
+	k := ks[r.Intn(len(ks))]
+	typ := k.Types[r.Intn(len(k.Types))]
+	p := k.New()
+	v := reflect.ValueOf(p).Elem()
+	v.FieldByName("ID").Set(reflect.ValueOf(vocab.IRI("https://example.com/text/1")))
+	v.FieldByName("Type").Set(reflect.ValueOf(vocab.ActivityVocabularyType(typ)))
 	switch prop {
-	case "name":
-		o.Name = nlv
-	case "summary":
-		o.Summary = nlv
-	case "content":
-		o.Content = nlv
 	case "source.content":
-		o.Source = vocab.Source{Content: nlv, MediaType: "text/markdown"}
+		v.FieldByName("Source").Set(reflect.ValueOf(vocab.Source{Content: nlv, MediaType: "text/markdown"}))
 	case "source.content-only":
-		o.Source = vocab.Source{Content: nlv} // a source without a media type
+		v.FieldByName("Source").Set(reflect.ValueOf(vocab.Source{Content: nlv})) // a source without a media type
+	default:
+		v.FieldByName(fieldName).Set(reflect.ValueOf(nlv))
 	}
+	nested := r.Intn(3) == 0
 	get := func(x any) (vocab.NaturalLanguageValues, bool) {
-		p, ok := x.(*vocab.Object)
-		if !ok || p == nil {
+		if nested {
+			a, ok := x.(*vocab.Activity)
+			if !ok || a == nil {
+				return nil, false
+			}
+			x = a.Object
+		}
+		xv := reflect.ValueOf(x)
+		if !xv.IsValid() || xv.Kind() != reflect.Pointer || xv.IsNil() || xv.Type() != reflect.TypeOf(p) {
 			return nil, false
 		}
-		switch prop {
-		case "name":
-			return p.Name, true
-		case "summary":
-			return p.Summary, true
-		case "content":
-			return p.Content, true
+		f := xv.Elem().FieldByName(fieldName)
+		if fieldName == "Source" {
+			return f.Interface().(vocab.Source).Content, true
 		}
-		return p.Source.Content, true
+		return f.Interface().(vocab.NaturalLanguageValues), true
 	}
-	return o, get, nlv
+	var x vocab.Item = p.(vocab.Item)
+	if nested {
+		x = &vocab.Activity{ID: "https://example.com/text/outer", Type: vocab.AnnounceType, Object: x}
+	}
+	return x, get, nlv, fmt.Sprintf("%s[%s] nested=%v", k.Name, typ, nested)
 }
 
 func checkText(c *Ctx, prop, form, codec, class, s string) {
-	x, get, want := buildTextValue(prop, form, s, c.R)
-	label := fmt.Sprintf("%s %s %s %q", codec, prop, form, s)
+	x, get, want, carrier := buildTextValue(prop, form, s, c.R)
+	label := fmt.Sprintf("%s %s %s %q in %s", codec, prop, form, s, carrier)
+	c.Count("carrier:"+carrier[:strings.Index(carrier, " ")], 1)
 	var pairs []codecPair
 	switch codec {
 	case "json-pkg":
@@ -197,6 +207,7 @@ func checkText(c *Ctx, prop, form, codec, class, s string) {
 	}
 	c.Count("roundtrips", 1)
 	c.Count("codec:"+codec, 1)
+	keepDecoded(c, "text", vmodel.Exact, got, label)
 	gotN, ok := get(got)
 	if !ok {
 		c.Fail(sigBase+"|wrong-type", fmt.Sprintf("decoding %s gave %T", label, got), map[string]any{"case": label, "bytes": clipB(b)})
@@ -241,6 +252,9 @@ func jsonTextSide(b []byte, prop, form string, want vocab.NaturalLanguageValues,
 	root, _, err := vmodel.StrictParse(b)
 	if err != nil {
 		return "writer-invalid-json"
+	}
+	if o, id := root.Get("object"), root.Get("id"); o != nil && o.Kind == "object" && id != nil && id.S == "https://example.com/text/outer" {
+		root = o
 	}
 	obj := root
 	term := prop
